@@ -184,6 +184,70 @@ def no_truncating_adaptors_rule(chk, P, key):
     chk.ob(key, "no enumeration goes through an iterator adaptor that can stop early on its own (only the visitor's Break ends it)", no_truncating_adaptors)
 
 
+def loop_exit_rule(chk, P, key):
+    """An enumeration loop is left for one of two reasons only: its iterator is exhausted, or the visitor (or an inner for_each) answered
+    Break.  Any other way out of the loop - `return Continue` when an entry's optional value is None, a `break` on some property of the
+    entry - silently drops every later property from enumeration while lookups still find them."""
+    def f():
+        n = 0
+        for fb in P.find(trait=PROPS, method="for_each"):
+            if fb.is_closure:
+                continue
+            for x in [fb] + P.closures_of(fb):
+                hdrs = sorted({h for s_, h in x.back_edges()})
+                for h in hdrs:
+                    body = x.loop_body(h)
+                    nexts = [c for c in x.calls(normal_only=True) if c.bb in body and c.callee.get("name") in ("next", "next_back")]
+                    if not nexts:
+                        continue  # not an iterator loop (e.g. a retry loop): not an enumeration
+                    n += 1
+                    for u in sorted(body):
+                        blk = x.blocks[u]
+                        if blk.get("cleanup"):
+                            continue
+                        for v in x.succ(u):
+                            if v in body or x.blocks[v].get("cleanup"):
+                                continue
+                            # the decision that takes this exit: the nearest switch in the loop that controls the edge
+                            dec = None
+                            w = u
+                            seen = set()
+                            while w is not None and w not in seen:
+                                seen.add(w)
+                                if x.blocks[w]["term"]["k"] == "switch":
+                                    dec = w
+                                    break
+                                pr = [p_ for p_ in x.preds()[w] if p_ in body]
+                                w = pr[0] if len(pr) == 1 else None
+                            ok = False
+                            why = "an unconditional exit"
+                            if dec is not None:
+                                so = x.switch_origin(dec)
+                                o = so[1] if so[0] == "discr" else so
+                                d = 0
+                                projected = False
+                                while d < 8 and o[0] in ("field", "downcast", "ref", "deref", "copy"):
+                                    projected = projected or o[0] in ("field", "downcast")
+                                    o = o[1]
+                                    d += 1
+                                why = mir.o_str(so)[:120]
+                                if o[0] == "call":
+                                    nm = o[1].callee.get("name")
+                                    if nm in ("next", "next_back") and o[1].bb in body:
+                                        ok = not projected   # Some/None of the iterator's answer itself, not a property of the entry it yielded
+                                    elif nm in ("branch", "is_break", "is_continue"):
+                                        ok = True   # `?` / a test of a ControlFlow: the visitor discipline rules decide what it was applied to
+                                    elif nm in ("call_mut", "call", "call_once", "for_each", "dispatch_for_each"):
+                                        ok = True
+                            if not ok:
+                                return False, ("%s leaves its enumeration loop on %s (edge bb%d -> bb%d): only exhaustion of the iterator or a Break from the "
+                                               "visitor may end an enumeration; an entry that is to be skipped must `continue`" % (x.key, why, u, v)), [], x.span
+        if n < 4:
+            raise mir.AnchorMissing("iterator loops inside Props::for_each impls (found %d)" % n)
+        return True, "", ["%d enumeration loops" % n]
+    chk.ob(key, "an enumeration loop ends only on exhaustion or on the visitor's Break", f)
+
+
 def run(chk):
     global _P
     P = mir.Program("K1")
@@ -372,6 +436,7 @@ def run(chk):
         return True, "", [fe.span, b.span]
 
     no_truncating_adaptors_rule(chk, P, "C02.R1:no-truncating-adaptors")
+    loop_exit_rule(chk, P, "C02.R1:loop-exits")
 
     for b in overrides["get"]:
         k = self_kind(b)
